@@ -363,3 +363,11 @@ func (s *State) SymStores() []string {
 	sort.Strings(keys)
 	return keys
 }
+
+// MkSlice builds a slice value with known elements in the given state.
+func MkSlice(in *Interp, st *State, elems []Value, sliceT types.Type) *Slice {
+	et := sliceT.Underlying().(*types.Slice).Elem()
+	c := in.NewCell("slice", types.NewArray(et, int64(len(elems))))
+	st.Mem[c] = &Array{T: c.T, E: append([]Value(nil), elems...)}
+	return &Slice{C: c, Len: len(elems), T: sliceT}
+}
